@@ -61,8 +61,9 @@ type sEventT struct {
 }
 
 type sCaseT struct {
-	Fam   string `json:"fam"`
-	Shape sShape `json:"shape"`
+	Fam   string   `json:"fam"`
+	Shape sShape   `json:"shape"`
+	Prev  []sShape `json:"prev"` // the struct types declared and used just before in the same process
 }
 
 // user-defined types with a supported underlying type (reflect.StructOf cannot declare new
@@ -139,6 +140,11 @@ func emptySType() sType { return sType{Attrs: map[string]sAttr{}, Rels: map[stri
 func isTagged(f sField) bool { return f.API == "attr" || strings.Split(f.API, ",")[0] == "rel" }
 
 func runStructCase(c sCaseT) sEventT {
+	for _, p := range c.Prev { // a replay re-creates the process history: other structs of the same type name came first
+		pc := c
+		pc.Shape, pc.Prev = p, nil
+		_ = runStructCase(pc)
+	}
 	ev := sEventT{Ev: "struct", Shape: c.Shape, Obs: sObsT{Panics: []string{}, Built: emptySType(), Wrapped: emptySType()}}
 	if ev.Shape.Fields == nil {
 		ev.Shape.Fields = []sField{}
@@ -300,9 +306,15 @@ func structMain(args []string) {
 		shapes = append(small, big...)
 	}
 	w := newEvWriter(*out, 100000)
+	var recent []sShape
 	for _, sh := range shapes {
 		c := sCaseT{Fam: "struct", Shape: sh}
 		ev := runStructCase(c)
+		c.Prev = append([]sShape{}, recent...)
+		recent = append(recent, sh)
+		if len(recent) > 4 {
+			recent = recent[1:]
+		}
 		stt.Calls += 4 + len(ev.Obs.Panics)
 		stt.class("check:" + ev.Obs.Check)
 		if ev.Obs.Check == "ok" && len(ev.Obs.Built.Attrs)+len(ev.Obs.Built.Rels) > 0 {
